@@ -20,14 +20,17 @@ EXTENDS Layout, TLC, Json
 \* named abstract member: form as in Schema, sizer by NAME
 NM(nm, f, t, n, szr) == [nm |-> nm, f |-> f, t |-> t, n |-> n, szr |-> szr]
 
-\* isar member: dim in "none" "size" "size2" "var" "varsize" "varnamed" "at" "this"
+\* isar member: dim in "none" "size" "size2" "var" "varsize" "varsize2" "varnamed" "at" "this"
 IM(nm, t, opt, dim, n, aux) == [nm |-> nm, t |-> t, opt |-> opt, dim |-> dim, n |-> n, aux |-> aux]
 
 \* fixed environment the members may refer to: 1 = enum, 2 = struct {u16; u8}
 BaseEnv == << EnumDef(<<1, 2>>), StructDef(<<Plain(Int(2)), Plain(Int(1))>>) >>
 ElemTypes == {Int(1), Int(4), SInt(2), Ref(1), Ref(2)}
 
-FromIsar(m, inMessage) ==
+\* "numOf" + the member's name with its first letter in upper case (members are called f<k>)
+NumOfName(nm) == "numOfF" \o SubSeq(nm, 2, Len(nm))
+
+FromIsarDim(m, inMessage) ==
     CASE m.dim = "none"     -> << NM(m.nm, IF m.opt THEN "opt" ELSE "plain", m.t, 0, "") >>
       [] m.dim = "size"     -> << NM(m.nm, "fixed", m.t, m.n, "") >>
       [] m.dim = "size2"    -> << NM(m.nm, "fixed", m.t, m.n * m.aux, "") >>
@@ -41,9 +44,17 @@ FromIsar(m, inMessage) ==
                                   ELSE NM(m.nm, "limext", m.t, m.n * m.aux, m.nm \o "_len") >>
       \* named and typed counter (u8)
       [] m.dim = "varnamed" -> << NM("cnt_" \o m.nm, "plain", Int(1), 0, ""), NM(m.nm, "ext", m.t, 0, "cnt_" \o m.nm) >>
-      \* sized by an existing field
-      [] m.dim = "at"       -> << NM(m.nm, "ext", m.t, 0, "sizer") >>
-      [] m.dim = "this"     -> << NM(m.nm, "ext", m.t, 0, "numOfArr") >>
+      \* sized by an existing field: variableSizeFieldName="@f1"
+      [] m.dim = "at"       -> << NM(m.nm, "ext", m.t, 0, "f1") >>
+      \* size="THIS_IS_VARIABLE_SIZE_ARRAY": sized by the existing field numOf<Name>
+      [] m.dim = "this"     -> << NM(m.nm, "ext", m.t, 0, NumOfName(m.nm)) >>
+
+\* optional="true" on a member WITH a dimension does not make an optional: it
+\* puts an explicit u32 enabler has_<name> in front of the array
+FromIsar(m, inMessage) ==
+    IF m.opt /\ m.dim # "none"
+    THEN << NM("has_" \o m.nm, "plain", Int(4), 0, "") >> \o FromIsarDim(m, inMessage)
+    ELSE FromIsarDim(m, inMessage)
 
 RECURSIVE Flatten(_, _)
 Flatten(ims, inMessage) ==
@@ -92,7 +103,14 @@ fvars == <<ims, inMessage, script, result, outcome>>
 Forms(nm, t) ==
     {IM(nm, t, FALSE, "none", 0, 0), IM(nm, t, TRUE, "none", 0, 0), IM(nm, t, FALSE, "size", 3, 0),
      IM(nm, t, FALSE, "size2", 2, 2), IM(nm, t, FALSE, "var", 0, 0), IM(nm, t, FALSE, "varsize", 2, 0),
-     IM(nm, t, FALSE, "varnamed", 0, 0), IM(nm, t, FALSE, "varsize2", 3, 2)}
+     IM(nm, t, FALSE, "varnamed", 0, 0), IM(nm, t, FALSE, "varsize2", 3, 2),
+     IM(nm, t, TRUE, "size", 2, 0), IM(nm, t, TRUE, "var", 0, 0)}
+
+\* arrays sized by an existing member (the first member is that integer)
+SizedByExisting ==
+    {<< IM("f1", t1, FALSE, "none", 0, 0), IM("f2", t, FALSE, "at", 0, 0) >> : t1 \in {Int(1), Int(4)}, t \in ElemTypes}
+    \cup {<< IM(NumOfName("f2"), t1, FALSE, "none", 0, 0), IM("f2", t, FALSE, "this", 0, 0) >> : t1 \in {Int(1), Int(4)}, t \in ElemTypes}
+    \cup {<< IM("f1", Int(2), FALSE, "none", 0, 0), IM("f2", t, FALSE, "at", 0, 0), IM("f3", t, FALSE, "at", 0, 0) >> : t \in {Int(1), Ref(2)}}
 
 Scripts ==
     {<<>>, << [op |-> "absent", a |-> "", b |-> "", c |-> "", t |-> Int(1), n |-> 0] >>}
@@ -119,6 +137,7 @@ FInit ==
     /\ ims \in {<<x>> : x \in UNION {Forms("f1", t) : t \in ElemTypes}}
             \cup {<<x, y>> : x \in UNION {Forms("f1", t) : t \in {Int(1), Int(4)}},
                              y \in UNION {Forms("f2", t) : t \in ElemTypes}}
+            \cup SizedByExisting
     /\ script \in Scripts
     /\ result = <<>> /\ outcome = "todo"
 
